@@ -3,9 +3,7 @@ TRUST = ("Trusted: rustc (MIR construction, trait resolution, const evaluation) 
          "semantics as summarised in the model rows of DESIGN.md appendix A; the oracle files under oracle/; little-endian 64-bit target. "
          "Common to all checks: guards are compared as integer facts; every unsigned subtraction on an analysed path must be ordered by that "
          "path's conditions (I-underflow); changes to the frozen panicking preconditions are reported (I-assert); items that moved between "
-         "modules, or whose generic parameters were renamed, are mapped back to their frozen names (rules/canon.py). Run in three build "
-         "configurations (quick) or four (thorough). The rules decide the pinned functions and their restylings; a function re-implemented by "
-         "a different algorithm is reported as cannot-establish / mismatch whether or not the new algorithm is right (DESIGN.md section 6). ")
+         "modules are mapped back to their frozen names (rules/canon.py). Run in three build configurations (quick) or four (thorough). ")
 SOURCE_COMMITS = []
 FIX_COMMITS = ["ae2da57", "a6bd5b1", "5888761", "4f0e07a", "98a9f66", "88a696c", "e497ea8", "279ff04"]
 NOT_APPLICABLE = {}
